@@ -214,7 +214,11 @@ static std::string run_sdk(const Cfg &cfg, const std::string &temps, bool with_s
   if (!cfg.is_default)
   {
     std::shared_ptr<sm::HistogramAggregationConfig> hc(new sm::HistogramAggregationConfig(cfg.cfg));
-    std::unique_ptr<sm::View> view(new sm::View("h", "", "", sm::AggregationType::kHistogram, hc));
+    // the view names its aggregation (kHistogram) or leaves it at kDefault - for a histogram instrument that is the same
+    // aggregation, and the view's configuration (boundaries, record_min_max) applies either way; which one depends on the case
+    const bool by_default = (cfg.cfg.boundaries_.size() + temps.size() + ops.size()) % 2 == 1;
+    std::unique_ptr<sm::View> view(
+        new sm::View("h", "", "", by_default ? sm::AggregationType::kDefault : sm::AggregationType::kHistogram, hc));
     std::unique_ptr<sm::InstrumentSelector> is(new sm::InstrumentSelector(sm::InstrumentType::kHistogram, "h", ""));
     std::unique_ptr<sm::MeterSelector> ms(new sm::MeterSelector("m", "1", "s"));
     mp.AddView(std::move(is), std::move(ms), std::move(view));
